@@ -210,3 +210,32 @@ Proof.
   split; [apply (C09_inv_prio [] [] [] 0 ex_actions_prio ex_actions_prio_ok)|].
   vm_compute. repeat split; reflexivity.
 Qed.
+
+(* ------------------------------------------------------------------------------------
+   The priority loop with starvation boosting ENABLED (any boost factor - the default one
+   included - and any sequence of random draws).  qok_boost r := r = RPos p with the
+   PriorityQueue invariant of its array (PQProofs.Inv HPV (pq_ p): heap order, distinct
+   sequence numbers below the counter).  do_maintenance only lowers boost fields and
+   re-heapifies, so the array invariant and the multiset of queued handles survive it
+   (Sched/PrioQueueBoost.v); hence QSpec and Inv09 hold for every factor. *)
+From Asynkit Require Import Queue.PQProofs Sched.PrioQueueBoost.
+
+Theorem C09_qspec_prio_boost : QSpec qok_boost.
+Proof. exact QSpec_boost. Qed.
+Print Assumptions C09_qspec_prio_boost.
+
+Theorem C09_inv_prio_boost :
+  forall factor draws lks cds nev l,
+    let s0 := init_st true factor draws lks cds nev in
+    actions_ok s0 l -> Inv09 qok_boost (fold_left do_action l s0).
+Proof. exact Inv09_prio_boost. Qed.
+Print Assumptions C09_inv_prio_boost.
+
+(* non-vacuity: the priority-loop example history with the default factor *)
+Example C09_example_prio_boost :
+  Inv09 qok_boost (fold_left do_action ex_actions_prio (init_st true (6#5) [1#2] [] [] 0)).
+Proof.
+  apply (C09_inv_prio_boost (6#5) [1#2] [] [] 0 ex_actions_prio).
+  simpl. repeat split; auto; intros; try exact Logic.I.
+  all: try (destruct rep; simpl; auto; split; auto; intros; exact Logic.I).
+Qed.
